@@ -166,6 +166,15 @@ func runC03(r *vhlib.Run) {
 			c03Check(r, t.Data, t.Kind, true)
 		}
 	}
+	// run numbers of 19..48 RUNA/RUNB digits
+	nov := 60
+	if !r.Quick() {
+		nov = 1500
+	}
+	for k := 0; k < nov; k++ {
+		t := gen.BzOverlongRun(rng)
+		c03Check(r, t.Data, t.Kind, true)
+	}
 	// the level byte of the header: every value around '1'..'9'
 	{
 		base := ref.BZCompress(bzPlain(rng, 300), 9)
